@@ -41,7 +41,7 @@ RAW = {
                "responses": {"200": {"description": "ok"}}} for m in ("post", "put", "patch")},
     }},
 }
-METHOD = {"engine-own": "GET", "engine-removed": "GET", "engine-overridden": "GET", "header": "GET", "query": "GET", "path": "DELETE", "cookie": "PATCH", "body": "POST", "json": "PUT", "form": "POST", "auth": "GET", "multipart": "POST",
+METHOD = {"engine-cookie": "GET", "engine-own": "GET", "engine-removed": "GET", "engine-overridden": "GET", "header": "GET", "query": "GET", "path": "DELETE", "cookie": "PATCH", "body": "POST", "json": "PUT", "form": "POST", "auth": "GET", "multipart": "POST",
           "graphql": "POST", "wsgi": "GET"}
 SANITIZED_LEN = 2   # elements with strings up to this length are also printed with output sanitisation on
 _P: dict = {}
@@ -121,7 +121,9 @@ def project(rec, auth: str, keep_auto: bool) -> dict:
     return {"method": cps(rec.method), "target": cps(rec.target), "headers": hs, "body": list(rec.body)}
 
 
-FRONT = {"api-header": "header", "api-body": "body", "base-slash": "path"}
+FRONT = {"api-header": "header", "api-body": "body", "base-slash": "path", "cookie-session": "cookie", "cookie-call": "cookie",
+         "cookie-header": "cookie", "api-cookie-session": "cookie"}
+SET_COOKIE = (200, [("Content-Type", "application/json"), ("Set-Cookie", "sid=abc123; Path=/")], b"{}")
 MARKER = "Reproduce with: \n\n    "
 
 
@@ -180,6 +182,24 @@ def observe(el: dict) -> dict:
             except FailureGroup as exc:
                 message = exc.message
             response = None
+        elif slot in ("cookie-session", "api-cookie-session"):
+            # a shared session (as the engine uses) on which an earlier response set a cookie
+            import requests
+            from .server import default_behaviour
+
+            session = requests.Session()
+            srv.behaviour = lambda rec: SET_COOKIE
+            try:
+                session.get(srv.base_url + "/login")
+            finally:
+                srv.behaviour = default_behaviour
+            srv.clear()
+            response = case.call(session=session)
+            session.close()
+        elif slot == "cookie-call":
+            response = case.call(cookies={"d": "2"})
+        elif slot == "cookie-header":
+            response = case.call(headers={"Cookie": "sid=abc123"})
         else:
             response = case.call()
     except Exception as exc:
@@ -193,6 +213,8 @@ def observe(el: dict) -> dict:
             return {"unsendable": "%d requests recorded" % len(log)}
         original = log[0]
     verify = len(el["s"]) % 2 == 0 or slot.startswith("api-")
+    if slot in FRONT and FRONT[slot] == "cookie" and "cookie" not in {k.lower() for k, _ in original.headers}:
+        return {"unsendable": "no Cookie header went out"}
     try:
         if slot.startswith("api-"):
             # the Python API front door: the command is what the failure message tells the user to run
@@ -250,6 +272,9 @@ def observe_engine(el: dict) -> dict:
     srv = _server()
     auth = srv.base_url.split("://", 1)[1]
     kind = el["slot"].split("-", 1)[1]
+    cookie_run = kind == "cookie"   # a configured Cookie header next to a generated cookie parameter; the failure is on the own request
+    if cookie_run:
+        kind = "own"
     ok = (200, [("Content-Type", "application/json")], b"{}")
     deny = (401, [("Content-Type", "application/json")], b"{}")
     # removed: auth never enforced -> the no-credentials probe fails the check; overridden: any credential accepted -> the invalid-credentials
@@ -257,14 +282,19 @@ def observe_engine(el: dict) -> dict:
     srv.behaviour = (lambda rec: ok if rec.header("X-Access") is not None else deny) if kind == "overridden" else (lambda rec: ok)
     srv.clear()
     try:
-        schema = schemathesis.openapi.from_dict(json.loads(json.dumps(ENGINE_RAW)))
+        raw = json.loads(json.dumps(ENGINE_RAW))
+        net_headers = {"X-Access": "letmein", "X-H": text(el["s"])}
+        if cookie_run:
+            raw["paths"]["/x/a"]["get"]["parameters"] = [{"name": "c", "in": "cookie", "required": True, "schema": {"type": "string", "enum": [text(el["s"])]}}]
+            net_headers = {"X-Access": "letmein", "Cookie": "sid=abc123"}
+        schema = schemathesis.openapi.from_dict(raw)
         schema.configure(base_url=srv.base_url, output=OutputConfig(sanitize=False))
         config = EngineConfig(
             execution=ExecutionConfig(
                 phases=[PhaseName.FUZZING], checks=[_always_fails if kind == "own" else ignored_auth],
                 hypothesis_settings=hypothesis.settings(max_examples=1, deadline=None, database=None, derandomize=True),
                 generation=schema.generation_config),
-            network=NetworkConfig(headers={"X-Access": "letmein", "X-H": text(el["s"])}))
+            network=NetworkConfig(headers=net_headers))
         events = list(from_schema(schema, config=config).execute())
     except Exception as exc:
         return {"unsendable": "%s: %s" % (type(exc).__name__, str(exc)[:120])}
